@@ -32,6 +32,7 @@ GENERATORS = [
     ('gen_loops', 'Loops.lean', _unsup),
     ('gen_polyloops', 'PolyLoops.lean', _unsup),
     ('gen_dispatch', 'Dispatch.lean', _unsup),
+    ('gen_hdr', 'Hdr.lean', _unsup),
     ('tables_xml', 'XmlTables.lean', lambda r: None),
 ]
 
